@@ -38,12 +38,16 @@ def read_python():
     return out
 
 
-def read_yaml(path="/repo/secsgem/secs/functions.yaml"):
+def read_yaml(path=None):
     import re
 
     import yaml
     from secsgem.secs.variables.functions import generate
 
+    if path is None:
+        import secsgem.secs
+        import os
+        path = os.path.join(os.path.dirname(secsgem.secs.__file__), "functions.yaml")
     data = yaml.safe_load(open(path))
     out = []
     for key, d in data.items():
